@@ -10,8 +10,8 @@ FUNCTIONS = ["VectorTools::{shannon,shannonDiscrete,miDiscrete}", "operator+,-,*
              "NumTools::logsum", "StatTools::computeFdr"]
 BOUNDS = ("vector lengths 0..3 (quick) / 0..4 (thorough; set-like helpers: 0..2 quick, 0..3 thorough), every pair of equal or unequal lengths; all real elements (ties and negative values included); weights > 0; seq: end points in [-2,2], step 1 or 0.5; "
           "log-domain special values: each entry -inf, +inf or an arbitrary finite real")
-OUTSIDE = ["lengths above 4", "the integer instantiations of the templates", "the kernel-density (continuous) entropy and mutual information estimators", "IEEE rounding (REAL mode is exact arithmetic): 'stays finite where the naive formula overflows' is shown "
-           "structurally (only differences to the maximum are exponentiated: exp arguments <= 0 on every path), not by floating-point evaluation", "breaks/nclassScott/paste/print helpers"]
+OUTSIDE = ["lengths above 4", "the integer instantiations of the templates", "the kernel-density (continuous) entropy and mutual information estimators", "IEEE rounding (REAL mode is exact arithmetic): for the vector reductions 'stays finite where the naive formula overflows' is shown "
+           "structurally (only differences to the maximum are exponentiated: exp arguments <= 0 on every path), not by floating-point evaluation; the pairwise log-sum is additionally checked over IEEE doubles (job logsum-ieee)", "breaks/nclassScott/paste/print helpers"]
 ASSUMPTIONS = BASE_ASSUMPTIONS
 LEVEL_TEXT = ("Bounded symbolic checking: for every length configuration within the bound every feasible path (ordering of the elements) of the compiled template code is explored with symbolic elements and the result is "
               "shown equal to the definition for all reals; size mismatches / empty inputs must raise the documented exception and never index out of range.")
@@ -27,5 +27,6 @@ JOBS = [
     Job("weighted-statistics", "C07.cpp", ["HLO=10", "HHI=10", "LMAX=3"], budget_s=400, desc="weighted mean, covariance, variance, standard deviation and correlation for every combination of the unbiased / normalise-weights flags, lengths 2..3, any positive weights"),
     Job("entropy-mutual-information", "C07.cpp", ["HLO=9", "HHI=9", "LMAX=3"], thorough_defines=["HLO=9", "HHI=9", "LMAX=4"], env={"SYM_LOG_ATOMS": "1"}, budget_s=300, thorough_budget_s=2000, desc="shannon (frequencies, any base), shannonDiscrete and miDiscrete (samples of length 1..3 (4), every equality pattern): definitions through value counts, MI = H(X)+H(Y)-H(X,Y), symmetry, MI(X,X)=H(X), length mismatch refused; logarithms of count ratios are exact atoms and both sides are compared as products of integer powers"),
     Job("log-domain", "C07.cpp", ["HLO=6", "HHI=6", "LMAX=3"], thorough_defines=["HLO=6", "HHI=6", "LMAX=4"], budget_s=300, thorough_budget_s=3000, spurious_possible=True, desc="log-sum-exp family: bounds, exp-view equals the sum, shift-equivariance, weighted forms, pairwise log-sum (axiomatised exp/log)"),
+    Job("logsum-ieee", "C07.cpp", ["HLO=11", "HHI=11", "LMAX=2"], mode="fp", timeout_ms=120000, budget_s=600, background=True, procs=8, desc="FP mode (z3 Float64; exp/log/log1p constrained by their IEEE special values, sign, monotonicity, overflow/underflow thresholds): NumTools::logsum over every ordered pair of non-NaN doubles of magnitude <= 1e300 or infinite: never NaN, not below either term, finite when both terms are, log-zero only for two log-zeros (the naive log(exp x + exp y) overflows/underflows there)"),
     Job("log-special-values", "C07.cpp", ["HLO=7", "HHI=7", "LMAX=3"], thorough_defines=["HLO=7", "HHI=7", "LMAX=4"], budget_s=300, thorough_budget_s=3000, desc="log-domain reductions with -inf/+inf entries: never NaN, log-zeros give log-zero, finite terms give a finite result"),
 ]
